@@ -16,6 +16,7 @@ import (
 	"errors"
 	"fmt"
 	"math/rand"
+	"net/netip"
 	"strconv"
 	"strings"
 	"sync"
@@ -240,10 +241,19 @@ type c19hit struct {
 	ok     bool
 }
 
+// the clients of one wave come from different addresses (all of the same client group: no ip marker is configured)
+func c19remote(i int) netip.AddrPort {
+	return netip.AddrPortFrom(netip.AddrFrom4([4]byte{10, 1, byte(i / 250), byte(1 + i%250)}), uint16(10000+i))
+}
+
 func c19query(r *router.VerifRouter, nonce int64, id uint16) c19hit {
+	return c19queryFrom(r, nonce, id, c08remote)
+}
+
+func c19queryFrom(r *router.VerifRouter, nonce int64, id uint16, remote netip.AddrPort) c19hit {
 	qm := c08query(nonce, id)
 	t0 := time.Now()
-	resp, _, cached, _ := r.Handle(qm, c08remote, c08local)
+	resp, _, cached, _ := r.Handle(qm, remote, c08local)
 	lat := time.Since(t0)
 	dnsmsg.ReleaseMsg(qm)
 	h := c19hit{cached: cached, lat: lat}
@@ -266,7 +276,7 @@ func c19wave(r *router.VerifRouter, nonce int64, n int) (cached int, ttl int, sl
 		go func(i int) {
 			defer wg.Done()
 			<-start
-			res[i] = c19query(r, nonce, uint16(2000+i))
+			res[i] = c19queryFrom(r, nonce, uint16(2000+i), c19remote(i))
 		}(i)
 	}
 	close(start)
@@ -409,7 +419,9 @@ func c19scenario(mode, n, d int) string {
 }
 
 func c19e2eRun(cs string) string {
-	c08calibrate()
+	if !c08calibrate() {
+		return "skip"
+	}
 	m := kv(cs)
 	return c19scenario(atoi(m["mode"]), atoi(m["n"]), atoi(m["d"]))
 }
@@ -437,17 +449,22 @@ func c19e2eGen(r *rand.Rand, thorough bool, emit func(c, cat string)) {
 	} else {
 		batch = []sc{{0, pick(), 500}, {1, pick(), 300}, {2, pick(), 300}}
 	}
-	c08calibrate()
 	res := make([]string, len(batch))
-	var wg sync.WaitGroup
-	for i, s := range batch {
-		wg.Add(1)
-		go func(i int, s sc) {
-			defer wg.Done()
-			res[i] = c19scenario(s.mode, s.n, s.d)
-		}(i, s)
+	if c08calibrate() {
+		var wg sync.WaitGroup
+		for i, s := range batch {
+			wg.Add(1)
+			go func(i int, s sc) {
+				defer wg.Done()
+				res[i] = c19scenario(s.mode, s.n, s.d)
+			}(i, s)
+		}
+		wg.Wait()
+	} else {
+		for i := range res {
+			res[i] = "skip"
+		}
 	}
-	wg.Wait()
 	c19pre = map[string]string{}
 	for i, s := range batch {
 		cs := fmt.Sprintf("mode=%d n=%d d=%d run=%d", s.mode, s.n, s.d, i)
